@@ -529,9 +529,9 @@ fn main() {
     // exhaustive small part: every (duration, outcome class) assignment to 1 + max executions
     let reps = ["ELastAttemptError.UnableToAllocStreamId", "S", "ELastAttemptError.DbError.Invalid", "N"];
     let grids: &[(usize, &[u64], &[u64])] = if thorough {
-        &[(0, &[1, 2], &[0, 1, 2, 3]), (1, &[1, 2, 3], &[0, 1, 2, 3, 4]), (2, &[1, 2], &[0, 1, 2, 3, 4]), (3, &[1], &[0, 1, 2, 3])]
+        &[(0, &[1, 2], &[0, 1, 2, 3]), (1, &[1, 2, 3], &[0, 1, 2, 3, 4]), (2, &[1, 2], &[0, 1, 2, 3, 4]), (3, &[1], &[0, 1, 2, 3]), (4, &[1], &[0, 2])]
     } else {
-        &[(0, &[1, 2], &[0, 1, 2, 3]), (1, &[1, 2], &[0, 1, 2, 3]), (2, &[1, 2], &[0, 1, 2, 4])]
+        &[(0, &[1, 2], &[0, 1, 2, 3]), (1, &[1, 2], &[0, 1, 2, 3]), (2, &[1, 2], &[0, 1, 2, 4]), (3, &[1], &[0, 2]), (4, &[1], &[1])]
     };
     for (max, intervals, durs) in grids {
         let n = max + 1;
